@@ -267,6 +267,16 @@ def run_resume(case, ctx):
                 crash = e
                 break
         requiet()
+        if crash is not None and isinstance(crash, AssertionError) and "EquivalenceRule can only be created for equivalence rules" in str(crash):
+            # The library's documented limitation (DESIGN 9.4): a union rule that merges two
+            # statistics onto its only non-empty child is stored as a two-way edge whose
+            # reverse is not an equivalence; extracting a proof tree that uses the edge
+            # backwards asserts.  Whether a poll meets such a tree depends on WHEN it polls
+            # (and on the random tree choice), with or without interruptions: a search crash
+            # like in every other check, not something the interruption did.
+            ctx.label("crash-known-limitation")
+            ctx.count("search_crashes:" + describe_exc(crash)[:100])
+            return
         if crash is not None:
             # Does the same search crash the same way when it is NOT interrupted?  Then the
             # interruption is not to blame (C01 counts such crashes as search_crashes).
